@@ -598,8 +598,11 @@ func callSSA(i *interpreter, caller *frame, callpos token.Pos, fn *ssa.Function,
 			info.ext = externals[info.name]
 		}
 		// make sure the owning package is completely built before running any of its
-		// code (another worker may be in the middle of building it)
-		ensureBuilt(fn)
+		// code (another worker may be in the middle of building it); a function that is
+		// modelled by the engine is never run, so its package need not be built for it
+		if info.ext == nil {
+			ensureBuilt(fn)
+		}
 		pk := fn.Pkg
 		if pk == nil && fn.Origin() != nil {
 			pk = fn.Origin().Pkg
